@@ -33,7 +33,14 @@ fn rand_string(rng: &mut Rng, max: usize) -> String {
 
 fn rand_topic(rng: &mut Rng) -> TopicName {
     // arbitrary topics via the unchecked constructor (the codec must not care)
-    TopicName::_create_unchecked(&rand_string(rng, 20), &rand_string(rng, 20))
+    // … including names only the unchecked constructor (or a build without the topic check, or the server's own cloud
+    // proxy) produces: the reserved namespace, empty parts
+    match rng.below(12) {
+        0 => TopicName::_create_unchecked("selium", &rand_string(rng, 12)),
+        1 => TopicName::_create_unchecked(&format!("selium{}", rand_string(rng, 6)), "proxy"),
+        2 => TopicName::_create_unchecked("", ""),
+        _ => TopicName::_create_unchecked(&rand_string(rng, 20), &rand_string(rng, 20)),
+    }
 }
 
 /// every part of every frame kind can be large, not only message bodies: one operation path of hundreds of KB, or
@@ -626,6 +633,8 @@ pub fn run(rep: &mut StageReport, tier: &str, seed: u64) {
         let n = match rng.below(6) {
             0 => 0,
             1 => 1,
+            // (one list in 700 holds thousands of messages)
+            _ if !miri && i % 700 == 9 => *rng.pick(&[4095usize, 4096, 4097, 5000, 9000, 65_536, 70_000]),
             _ => rng.below(12) as usize,
         };
         // one list in 500 carries messages around and beyond the frame limit: a batch is compressed as a whole
